@@ -116,7 +116,18 @@ def run(ctx, R):
             binds = [s for s in arms[0]["pat"].get("sub", []) if s.get("k") == "bind"]
             payload = True
             if binds and visits:
+                # locals the visited value depends on, through `let` bindings of the arm (`let elements = v.to_vec();`)
                 used = {x.get("bid") for x in walk(visits[0]) if x.get("k") == "local"}
+                lets = [x for x in walk(arms[0]["body"]) if x.get("k") == "let" and "init" in x and x.get("pat", {}).get("k") == "bind"]
+                grew = True
+                while grew:
+                    grew = False
+                    for l in lets:
+                        if l["pat"]["bid"] in used:
+                            more = {x.get("bid") for x in walk(l["init"]) if x.get("k") == "local"} - used
+                            if more:
+                                used |= more
+                                grew = True
                 payload = binds[0]["bid"] in used
             R.check(len(visits) == 1 and visits[0]["name"] == want and payload, "r2", "any/%s" % v, C.loc(arms[0]["sp"]),
                     "deserialize_any: %s must go to %s with its own payload (got %s)" % (v, want, [x["name"] for x in visits]))
@@ -155,12 +166,17 @@ def run(ctx, R):
     if f is None:
         R.fail("r3", "anchor", "-", "deserialize_tuple not found")
     else:
+        from tfv.prov import Scope
+        sc3 = Scope(C, f)
         stmts = f["body"].get("stmts", []) + ([f["body"]["tail"]] if "tail" in f["body"] else [])
         guard_i = fw_i = None
         for i, s in enumerate(stmts):
             if s.get("k") == "if" and guard_i is None:
-                cmps = [comparison(x) for x in walk(s["cond"]) if comparison(x)]
-                has_len = any(c[0] == "!=" and ({"len"} & {ekey(c[1]), ekey(c[2])}) and any(k.endswith(".len()") for k in (ekey(c[1]), ekey(c[2]))) for c in cmps)
+                # the comparison may sit in the condition (let-chain) or in a nested `if`; its sides are compared after expanding
+                # single-definition locals (`let list_len = v.len();`)
+                cmps = [comparison(x) for x in walk(s) if comparison(x)]
+                sides = [(c[0], sc3.canon(c[1]), sc3.canon(c[2])) for c in cmps]
+                has_len = any(op == "!=" and ({"len"} & {a, b}) and any(k.endswith(".len()") for k in (a, b)) for op, a, b in sides)
                 rets = [x for x in walk(s["then"]) if x.get("k") == "ret" and "e" in x and strip(x["e"]).get("variant") == "Err"]
                 if has_len and rets:
                     guard_i = i
